@@ -595,9 +595,6 @@ func genProgram(r *R, f Feat) *Program {
 			for i := 0; i < nb; i++ {
 				if true { // every block: a level that skips a block makes parent() in the child fail in this engine
 					b := g.at("mid-block", func() string { return g.body(1) })
-					if r.P(50) {
-						b += g.print("parent()")
-					}
 					mid.Segs = append(mid.Segs, g.open(fmt.Sprintf("block b%d", i))+b+g.open("endblock"))
 				}
 			}
